@@ -178,7 +178,23 @@ def _sig_trailing_backslash(case: dict, f: Failure) -> bool:
     return lone and _re.search(r"(^|[ \t])\\([ \t]|$)", x) is not None and _rt_ok(x, 0, semantic)
 
 
+def _has_heading_with_br(node) -> bool:
+    if isinstance(node, tuple):
+        if node and node[0] == "h" and any(c == ("br",) for c in node[2]):
+            return True
+        return any(_has_heading_with_br(c) for c in node)
+    return False
+
+
+def _sig_hardbreak_in_setext(case: dict, f: Failure) -> bool:
+    """The input has a (multi-line setext) heading that contains a hard line break; an ATX heading cannot hold one."""
+    if case.get("kind", "doc") != "doc":
+        return False
+    return _has_heading_with_br(canon.canon_in(case["text"])[1])
+
+
 SIGS = {
+    "hardbreak_in_setext_heading": _sig_hardbreak_in_setext,
     "semantic_sentence_start_unescaped": _sig_semantic_sentence_start,
     "lone_backslash_line_end": _sig_trailing_backslash,
 }
